@@ -237,6 +237,8 @@ func (w *world) simulate(choices []int) {
 	fair := false   // fair (round-robin) phase
 	wraps := 0      // completed fair rounds since the fair phase began
 	censusDone := false
+	timersTried := false
+	lockSpins := 0
 	parkedSince := map[int]int{}
 	afterReturn := map[int]int{} // steps taken by each actor after Mine returned
 	hardCap := cfg.StepCap + 4000
@@ -316,11 +318,43 @@ func (w *world) simulate(choices []int) {
 				continue
 			}
 		}
+		if len(en) == 0 && !w.returned && !timersTried {
+			// nothing is parked and Mine has not returned: before calling it a deadlock let the fake clock run, in
+			// case something is sleeping on a timer (the code under test has none today; a context deadline that
+			// has not been fired yet expires here too, which is what would happen in real time)
+			timersTried = true
+			before := time.Now()
+			kernel.HiddenSleep(24 * time.Hour)
+			w.simNs += int64(time.Since(before))
+			if hasDeadline && !w.clockFired {
+				w.clockFired = true
+				w.delivered("deadline_expiry")
+			}
+			w.probes["clock_ran_before_deadlock_verdict"] = 1
+			continue
+		}
 		if len(en) == 0 {
 			if !w.returned {
 				w.violate("deadlock", "no actor is enabled while Mine is in flight; "+describeBlocked(base), nil)
 			}
 			break
+		}
+		// auto flavour: actors waiting for a sync.Mutex are parked at the lock-wait site and stay enabled; if
+		// nothing but lock waiters is left and none of them gets the lock, that is a deadlock
+		allLockWait := !w.returned
+		for _, e := range en {
+			if e.Site != kernel.LockWaitSite {
+				allLockWait = false
+			}
+		}
+		if allLockWait {
+			lockSpins++
+			if lockSpins > 4*len(en)+8 {
+				w.violate("deadlock", "every remaining actor is waiting for a sync.Mutex that is never released while Mine is in flight; "+describeBlocked(base), nil)
+				break
+			}
+		} else {
+			lockSpins = 0
 		}
 		if len(k.Trace) >= hardCap && !w.returned && !w.cancelDelivered {
 			if st != nil && cfg.Stub.AllQualify {
@@ -377,6 +411,7 @@ func (w *world) simulate(choices []int) {
 			}
 		}
 		w.passed[e.Site]++
+		timersTried = false
 		if since, ok := parkedSince[e.Who]; ok {
 			if e.Who == Watcher && len(k.Trace)-since > 12 {
 				w.faults["watcher_starved"] = 1
